@@ -208,6 +208,37 @@ def _job(a):
     return res
 
 
+def self_location(chk):
+    """Environment answers for the driver's search for its compiler proper: /proc/self/exe resolves (default, covered by every
+    other run), does not resolve (the driver falls back to argv[0]), or fills the buffer (must be refused before anything runs)."""
+    triple = TRIPLES[0]
+    exe = build.driver(triple)
+    n = 0
+    lines = [['a.c'], ['-c', 'a.c'], ['-S', 'a.c', 'b.c'], ['-emit-qbe', '-o', 'x', 'a.c'], ['-E', 'a.c'], ['a.qbe'], ['-c', 'a.s']]
+    for argv0 in ('cproc', './cproc', '/usr/local/bin/cproc', '../x/cc', 'c'):
+        for l in lines:
+            p = subprocess.run([exe, 'run', '-R', '1', '-A', argv0, '--'] + l, stdout=subprocess.PIPE, stderr=subprocess.DEVNULL, timeout=60)
+            runs = parse_runs(p.stdout.decode(errors='replace'))
+            n += 1
+            if len(runs) != 1:
+                chk.violation('self-location/no-result', 'argv[0]=%r, /proc/self/exe unreadable, command line %r: the driver gave no result' % (argv0, l))
+                continue
+            want_compile = not (l[-1].endswith('.qbe') or l[-1].endswith('.s') or '-E' in l)
+            got = [s['argv'][0] for s in runs[0]['spawns'] if s['stage'] == 1]
+            exp = [argv0 + '-qbe'] * (sum(1 for x in l if x.endswith('.c')) if want_compile else 0)
+            if got != exp or runs[0]['status'] != 0:
+                chk.violation('self-location/fallback-to-argv0', 'argv[0]=%r, /proc/self/exe unreadable, command line %r: compile stages run %r (status %s), expected %r' % (
+                    argv0, l, got, runs[0]['status'], exp), cmd='# drvmc run -R 1 -A %s -- %s' % (argv0, ' '.join(l)))
+    for l in lines:
+        p = subprocess.run([exe, 'run', '-R', '2', '--'] + l, stdout=subprocess.PIPE, stderr=subprocess.DEVNULL, timeout=60)
+        runs = parse_runs(p.stdout.decode(errors='replace'))
+        n += 1
+        if len(runs) != 1 or runs[0]['status'] != 1 or runs[0]['spawns']:
+            chk.violation('self-location/oversized-target-not-refused', 'a /proc/self/exe target that fills the buffer, command line %r: status %s, %d spawns (expected status 1, none)' % (
+                l, runs[0]['status'] if runs else None, len(runs[0]['spawns']) if runs else -1), cmd='# drvmc run -R 2 -- %s' % ' '.join(l))
+    return n
+
+
 def real_conformance(chk, lines):
     """Replay command lines with real processes and stub tools; the facts recorded by the stubs must equal the world's log."""
     triple = TRIPLES[0]
@@ -299,6 +330,8 @@ def main(chk):
     conf += [tuple(m + o + [a] + b) for m in MODES + [[]] for o in [[], ['-o', 'out']] for a in ['a.c', 'e.s', 'd.qbe'] for b in [[], ['g.o'], ['c.i']]
              if not (o and b and m)]
     nreal, badreal = real_conformance(chk, conf)
+    nself = self_location(chk)
+    n += nself
     samples = [{'cmdline': ' '.join(l), 'model': repr(drvref.model(l, TRIPLES[0]))[:400]} for l in (lines[5], lines[len(lines) // 2], lines[-1])]
     cov = {
         'states': len(states),
